@@ -71,12 +71,15 @@ mod harness {
         let na: usize = kani::any(); let nb: usize = kani::any(); kani::assume(na <= 2 && nb <= 2);
         let (aa, ab): (bool, bool) = (kani::any(), kani::any());
         let a = obj(&[1, 2][..na], aa); let b = obj(&[3, 4][..nb], ab);
+        // either operand may already have been read on its own (its assertions ran against ITSELF, not against the composed object)
+        let (ra, rb): (bool, bool) = (kani::any(), kani::any());
+        if ra { a.0.assertions_ran.set(true); } if rb { b.0.assertions_ran.set(true); }
         let r = b.extend_from(a.clone());
         assert!(r.0.cores.len == na + nb, "obligation: a + b has the layers of both");
         let mut i = 0; while i < na { assert!(layer(&r, i) == layer(&a, i), "obligation: layers of the left operand come first, in order"); i += 1; }
         let mut j = 0; while j < nb { assert!(layer(&r, na + j) == layer(&b, j), "obligation: layers of the right operand follow, in order"); j += 1; }
-        assert!(r.0.has_assertions == (aa || ab) && r.0.assertions_ran.get() == !(aa || ab), "obligation: assertions of both operands will run on the composed object");
-        kani::cover!(na == 2 && nb == 2);
+        assert!(r.0.has_assertions == (aa || ab) && r.0.assertions_ran.get() == !(aa || ab), "obligation: assertions of both operands will run (again) on the composed object, whether or not an operand has been checked on its own before");
+        kani::cover!(na == 2 && nb == 2); kani::cover!(aa && ra && rb);
     }
 
     /// object extension `base { ... }` and std.objectRemoveKey: new literal layer goes on top of the base's layers; a
